@@ -119,16 +119,18 @@ fn build_specification(guard: &StringGuard) -> Result<Option<Specification>, syn
             let has_trim = relevant_sanitizers
                 .iter()
                 .any(|s| matches!(s, RelevantSanitizer::Trim));
+            // NOTE: there may be two lower bounds (`not_empty` counts as `len_char_min = 1`),
+            // the generated length has to satisfy both of them.
             let min_len = relevant_validators
                 .iter()
-                .find_map(|v| {
+                .filter_map(|v| {
                     if let RelevantValidator::LenCharMin(value) = v {
                         Some(value.clone())
                     } else {
                         None
                     }
                 })
-                .unwrap_or_else(|| ValueOrExpr::Value(0));
+                .fold(ValueOrExpr::Value(0), max_len_char_min);
             let max_len = relevant_validators
                 .iter()
                 .find_map(|v| {
@@ -147,6 +149,14 @@ fn build_specification(guard: &StringGuard) -> Result<Option<Specification>, syn
             };
             Ok(Some(spec))
         }
+    }
+}
+
+/// The greater of two lower bounds for the length.
+fn max_len_char_min(a: ValueOrExpr<usize>, b: ValueOrExpr<usize>) -> ValueOrExpr<usize> {
+    match (a, b) {
+        (ValueOrExpr::Value(a), ValueOrExpr::Value(b)) => ValueOrExpr::Value(a.max(b)),
+        (a, b) => ValueOrExpr::Expr(syn::parse_quote!(::core::cmp::max(#a, #b))),
     }
 }
 
